@@ -19,7 +19,11 @@ let ni s = n_of_int (int_of_string s)
 let batch = if Array.length Sys.argv > 1 then zs Sys.argv.(1) else zs "1000"
 let cap = if Array.length Sys.argv > 2 then zs Sys.argv.(2) else zs "20000"
 (* argv.(3) = "unfixed": the model of the code as found (before the C08 repairs) *)
-let fx = if Array.length Sys.argv > 3 && Sys.argv.(3) = "unfixed" then as_found else repaired
+(* argv.(3) = "order": repaired, except that Rollback is still sensitive to the order of a block record *)
+let fx =
+  if Array.length Sys.argv > 3 && Sys.argv.(3) = "unfixed" then as_found
+  else if Array.length Sys.argv > 3 && Sys.argv.(3) = "order" then { repaired with f_rollback_order = false }
+  else repaired
 
 let cls_of code param : oclass =
   match code with
@@ -84,7 +88,11 @@ let () =
     match use_wallet st w with
     | UOk -> show_report (xreport st w)
     | _ -> "error" in
+  let broken = ref false in
   iter_lines (fun line ->
+   if String.length line > 1 && line.[0] = 'H' && line.[1] = ' ' then broken := false;
+   if not !broken then
+   try
     let f = String.split_on_char ' ' line in
     (match f with
      | ("T" | "I" | "O") :: _ -> ()
@@ -221,4 +229,9 @@ let () =
     | "V" :: _ -> print_endline ("V\t" ^ !hist ^ "\t" ^ line)
     | "C" :: _ -> print_endline ("C\t" ^ !hist ^ "\t" ^ line)
     | "X" :: _ -> print_endline ("X\t" ^ line)
-    | _ -> ())
+    | _ -> ()
+   with e ->
+     (* a truncated history (its process died in the middle of a line): reported, rest of it skipped *)
+     broken := true;
+     Printf.printf "F\t%s\t%d\tdriver-exception\t%s\n" (if !hist = "" then "-1" else !hist) !k
+       (Printexc.to_string e ^ " at: " ^ (if String.length line > 60 then String.sub line 0 60 else line)))
